@@ -53,7 +53,16 @@ def observe(stream: str, include_intercept=True, flags=("TWOSIDED", "MULTIPART")
     return "ok", norm_structure(f)
 
 
-def compare(symbols, include_intercept=True, flags=("TWOSIDED", "MULTIPART"), available=None):
+def _degree_sorted(o):
+    """Order-insensitive among terms of the same degree (the order of ties inside a `**` expansion is not documented)."""
+    if isinstance(o, dict):
+        return {k: _degree_sorted(v) for k, v in o.items()}
+    if isinstance(o, tuple):
+        return tuple(_degree_sorted(v) for v in o)
+    return sorted(o, key=lambda t: (0 if t == ("1",) else len(t), t))
+
+
+def compare(symbols, include_intercept=True, flags=("TWOSIDED", "MULTIPART"), available=None, tie_order=True):
     """-> (verdict, detail): verdict in agree / dontcare / accepts-outside-grammar / rejects-inside-grammar / different-terms"""
     from oracle import wilkinson_ref as W
 
@@ -70,4 +79,51 @@ def compare(symbols, include_intercept=True, flags=("TWOSIDED", "MULTIPART"), av
         return "rejects-inside-grammar", f"rejected with {got[1]}; the documented algebra gives {want}"
     if got[1] == want:
         return "agree", None
+    if not tie_order and _degree_sorted(got[1]) == _degree_sorted(want):
+        return "agree", None
     return "different-terms", f"library: {got[1]}; documented algebra: {want}"
+
+
+def random_streams(seed: int, n: int, max_depth: int = 4):
+    """Well-formed symbol streams derived from the grammar (nesting up to max_depth, 3..25 symbols), each followed by one
+    single-symbol mutation of it (replace / insert / delete), which is usually ill-formed.  Deterministic in the seed."""
+    import random
+
+    rng = random.Random(seed)
+    names, lits = ["a", "b", "c"], ["0", "1"]  # a bare 2 as an operand is a scaling literal: its flow through powers is not documented
+    binops = ["+", "+", "-", "*", "/", ":", ":", "%in%", "**", "^"]
+
+    def expr(d):
+        k = rng.random()
+        if d >= max_depth or k < 0.3:
+            return [rng.choice(names if rng.random() < 0.85 else lits + ["."])]
+        if k < 0.45:
+            return ["("] + expr(d + 1) + [")"]
+        if k < 0.52:
+            return [rng.choice(["+", "-"])] + expr(d + 1)
+        op = rng.choice(binops)
+        if op in ("**", "^"):
+            return ["("] + expr(d + 1) + [")", op, rng.choice(["1", "2", "2", "3"] if False else ["1", "2", "2"])]
+        return expr(d + 1) + [op] + expr(d + 1)
+
+    out = []
+    while len(out) < n:
+        parts = [expr(rng.randint(0, 2)) for _ in range(rng.choice([1, 1, 1, 2, 3]))]
+        rhs = parts[0]
+        for p in parts[1:]:
+            rhs = rhs + ["|"] + p
+        syms = (expr(2) + ["~"] + rhs) if rng.random() < 0.35 else rhs
+        if not 3 <= len(syms) <= 25:
+            continue
+        out.append(syms)
+        m = list(syms)
+        pos = rng.randrange(len(m))
+        how = rng.random()
+        if how < 0.4:
+            m[pos] = rng.choice(SIGMA)
+        elif how < 0.75:
+            m.insert(pos, rng.choice(SIGMA))
+        else:
+            del m[pos]
+        out.append(m)
+    return out
